@@ -83,6 +83,8 @@ class Unit:
             self.functions[f.id] = f
             self.by_tname.setdefault(f.tname, []).append(f)
         self.cfg_failures = d.get('cfg_failures', 0)
+        from inline import inline_unit
+        self.inlined_calls = inline_unit(self)
 
     def type(self, tid):
         return self.types[tid - 1] if tid else None
@@ -246,7 +248,7 @@ class Fn:
             if nd['c'] == 'DeclStmt':
                 for v in nd.get('vars', []):
                     defs[v['id']] = {'init': v['init'] or None, 'writes': [], 'decl': i, 'name': v['name'], 't': v['t'],
-                                     'static': v.get('static', False), 'constexpr': v.get('constexpr', False)}
+                                     'static': v.get('static', False), 'constexpr': v.get('constexpr', False), 'inl': nd.get('inl', 0)}
                     for b in v.get('bindings', []):
                         defs[b['id']] = {'init': None, 'writes': [], 'decl': i, 'name': b['name'], 'binding_of': v['id']}
         for i in self.all_ids():
@@ -370,9 +372,11 @@ class Fn:
                         elems = t0[1:]
                     elif t0 and t0[0] == 'construct' and str(t0[1]) in ('std::pair', 'std::tuple'):
                         elems = t0[2]
+                    elif t0 and t0[0] == 'call' and str(t0[1]) in ('std::make_pair', 'std::make_tuple'):
+                        elems = tuple(x[2] if isinstance(x, tuple) and x and x[0] == 'cast' else x for x in t0[2])
                     if elems is not None and idx is not None and idx < len(elems) and len(elems) == len(sibs):
                         return elems[idx]
-            if dk in ('local', 'binding', 'static_local') and inline:
+            if dk in ('local', 'binding', 'static_local') and (inline or self.defs.get(nd['d'], {}).get('inl')):
                 init = self.single_def(nd['d'])
                 if init:
                     return self.term(init, inline, depth + 1)
@@ -414,6 +418,18 @@ class Fn:
             if nd.get('indirect'):
                 return ('icall', T(nd['ch'][0]), args)
             return ('call', nd.get('ct', '?'), args, obj)
+        if c == 'InlinedCall':
+            v = nd.get('value', ('void',))
+            if v[0] == 'one':
+                return T(v[1])
+            if v[0] == 'cond':
+                t = T(v[2])
+                for cnd, val in reversed(v[1]):
+                    t = ('cond', T(cnd), T(val), t)
+                return t
+            if v[0] == 'phi':
+                return ('phi',) + tuple(T(x) for x in v[1])
+            return ('void',)
         if c in ('CXXConstructExpr', 'CXXTemporaryObjectExpr'):
             return ('construct', nd.get('rec'), tuple(T(a) for a in nd.get('args', [])))
         if c == 'UnaryOperator':
